@@ -470,6 +470,280 @@ theorem ins_some_vis {vis : List Name} {xs : List Name} (h : ∀ x, x ∈ xs →
   subst this
   exact h x hx
 
+/-! ### Constant subscripts -/
+
+/-- Membership goals about `topDefs (a ++ b) ++ vis`. -/
+macro "memtac" : tactic =>
+  `(tactic| (simp only [topDefs_append, topDefs_cons, List.mem_append, List.mem_cons, Node.outs] at *; grind))
+
+def cacheNames (c : IntCache) : List Name := c.map Prod.snd
+
+theorem cacheFind_mem : ∀ {c : IntCache} {v : Int} {n : Name}, cacheFind c v = some n → n ∈ cacheNames c := by
+  intro c
+  induction c with
+  | nil => intro v n h; simp [cacheFind] at h
+  | cons p rest ih =>
+    intro v n h
+    obtain ⟨k, m⟩ := p
+    unfold cacheFind at h
+    by_cases hk : k = v
+    · simp only [hk, if_true] at h
+      cases h
+      simp [cacheNames]
+    · simp only [hk, if_false] at h
+      have := ih h
+      simp only [cacheNames, List.map_cons, List.mem_cons] at this ⊢
+      exact Or.inr this
+
+theorem const1d_scope {vis : List Name} {c c' : IntCache} {v : Int} {x : Name} {ns : List Node} {s s' : St}
+    (hc : ∀ n, n ∈ cacheNames c → n ∈ vis) (h : const1d c v s = .ok ((x, ns, c'), s')) :
+    ArgsOK vis (x :: cacheNames c') ns := by
+  unfold const1d at h
+  cases hf : cacheFind c v with
+  | some n =>
+    simp only [hf] at h
+    obtain ⟨e1, e2⟩ := pure_ok h
+    cases e1
+    refine ⟨wfNodes_nil _, ?_⟩
+    intro y hy
+    have : y ∈ vis := by
+      rcases List.mem_cons.mp hy with rfl | hy
+      · exact hc _ (cacheFind_mem hf)
+      · exact hc _ hy
+    simpa [topDefs] using this
+  | none =>
+    simp only [hf] at h
+    mbind h with p s1 h1
+    obtain ⟨n, ns'⟩ := p
+    try dsimp only at h
+    obtain ⟨e1, e2⟩ := pure_ok h
+    cases e1
+    have a := emitConst_scope vis h1
+    refine ⟨a.1, ?_⟩
+    intro y hy
+    simp only [cacheNames, List.map_cons, List.mem_cons] at hy
+    rcases hy with rfl | rfl | hy
+    · exact a.2
+    · exact a.2
+    · exact vis_grow _ _ (hc _ hy)
+
+theorem convSlice_scope {vis : List Name} {c c' : IntCache} {lo up st : Option Int} {ln un sn : Name}
+    {ns : List Node} {s s' : St} (hc : ∀ n, n ∈ cacheNames c → n ∈ vis)
+    (h : convSlice c lo up st s = .ok (((ln, un, sn), ns, c'), s')) :
+    ArgsOK vis (ln :: un :: sn :: cacheNames c') ns := by
+  unfold convSlice at h
+  mbind h with p s1 h1
+  obtain ⟨sn', ns1, c1⟩ := p
+  try dsimp only at h
+  mbind h with p s2 h2
+  obtain ⟨ln', ns2, c2⟩ := p
+  try dsimp only at h
+  mbind h with p s3 h3
+  obtain ⟨un', ns3, c3⟩ := p
+  try dsimp only at h
+  obtain ⟨e1, e2⟩ := pure_ok h
+  cases e1
+  have a1 := const1d_scope hc h1
+  have a2 := const1d_scope (vis := topDefs ns1 ++ vis) (fun n hn => a1.2 n (List.mem_cons_of_mem _ hn)) h2
+  have a3 := const1d_scope (vis := topDefs ns2 ++ (topDefs ns1 ++ vis))
+    (fun n hn => a2.2 n (List.mem_cons_of_mem _ hn)) h3
+  refine ⟨wf_app a1.1 (wf_app a2.1 a3.1), ?_⟩
+  intro y hy
+  have h1' := a1.2 sn List.mem_cons_self
+  have h2' := a2.2 ln List.mem_cons_self
+  have h3' := a3.2
+  simp only [List.mem_cons] at hy
+  rcases hy with rfl | rfl | rfl | hy
+  · memtac
+  · exact mem_after_app (mem_after_app (h3' _ List.mem_cons_self))
+  · memtac
+  · exact mem_after_app (mem_after_app (h3' _ (List.mem_cons_of_mem _ hy)))
+
+theorem convSlices_scope : ∀ (els : List SliceEl) {vis : List Name} {c c' : IntCache}
+    {starts ends axes steps : List Name} {ns : List Node} {s s' : St},
+    (∀ n, n ∈ cacheNames c → n ∈ vis) →
+    convSlices c els s = .ok (((starts, ends, axes, steps), ns, c'), s') →
+    ArgsOK vis (starts ++ (ends ++ (axes ++ (steps ++ cacheNames c')))) ns := by
+  intro els
+  induction els with
+  | nil =>
+    intro vis c c' starts ends axes steps ns s s' hc h
+    unfold convSlices at h
+    obtain ⟨e1, e2⟩ := pure_ok h
+    cases e1
+    refine ⟨wfNodes_nil _, ?_⟩
+    intro y hy
+    simp only [List.nil_append] at hy
+    simpa [topDefs] using hc y hy
+  | cons el rest ih =>
+    intro vis c c' starts ends axes steps ns s s' hc h
+    obtain ⟨ax, lo, up, st⟩ := el
+    unfold convSlices at h
+    mbind h with p s1 h1
+    obtain ⟨an, ns0, c0⟩ := p
+    try dsimp only at h
+    mbind h with p s2 h2
+    obtain ⟨⟨l, u, sn⟩, ns1, c1⟩ := p
+    try dsimp only at h
+    mbind h with p s3 h3
+    obtain ⟨⟨ls, us, as, ss⟩, ns2, c2⟩ := p
+    try dsimp only at h
+    obtain ⟨e1, e2⟩ := pure_ok h
+    cases e1
+    have a0 := const1d_scope hc h1
+    have a1 := convSlice_scope (vis := topDefs ns0 ++ vis) (fun n hn => a0.2 n (List.mem_cons_of_mem _ hn)) h2
+    have a2 := ih (vis := topDefs ns1 ++ (topDefs ns0 ++ vis))
+      (fun n hn => a1.2 n (List.mem_cons_of_mem _ (List.mem_cons_of_mem _ (List.mem_cons_of_mem _ hn)))) h3
+    refine ⟨wf_app a0.1 (wf_app a1.1 a2.1), ?_⟩
+    intro y hy
+    have h0' := a0.2 an List.mem_cons_self
+    have hl := a1.2 l List.mem_cons_self
+    have hu := a1.2 u (List.mem_cons_of_mem _ List.mem_cons_self)
+    have hs := a1.2 sn (List.mem_cons_of_mem _ (List.mem_cons_of_mem _ List.mem_cons_self))
+    have hrest := a2.2
+    simp only [List.cons_append, List.mem_cons, List.mem_append] at hy
+    have lift : ∀ z, z ∈ ls ++ (us ++ (as ++ (ss ++ cacheNames c'))) →
+        z ∈ topDefs (ns0 ++ (ns1 ++ ns2)) ++ vis := fun z hz => mem_after_app (mem_after_app (hrest z hz))
+    rcases hy with rfl | hy | rfl | hy | rfl | hy | rfl | hy | hy
+    · memtac
+    · exact lift _ (by simp [hy])
+    · memtac
+    · exact lift _ (by simp [hy])
+    · memtac
+    · exact lift _ (by simp [hy])
+    · memtac
+    · exact lift _ (by simp [hy])
+    · exact lift _ (by simp [hy])
+
+theorem pickOrConcat_scope {vis : List Name} {cand : Name} {xs : List Name} {x : Name} {ns : List Node}
+    {s s' : St} (hx : ∀ y, y ∈ xs → y ∈ vis) (h : pickOrConcat cand xs s = .ok ((x, ns), s')) :
+    ExprOK vis x ns := by
+  have hc : ∀ {s s' : St} {x : Name} {ns : List Node},
+      (do let r ← genUnique cand
+          pure (r, [Node.op "" "Concat" (xs.map some) [r] [("axis", AttrV.const "i:0")]]) : M (Name × List Node)) s
+        = .ok ((x, ns), s') → ExprOK vis x ns := by
+    intro s s' x ns h
+    mbind h with r s1 h1
+    obtain ⟨e1, e2⟩ := pure_ok h
+    cases e1
+    exact ⟨wf_single_op (ins_some_vis hx), by simp [topDefs, Node.outs]⟩
+  unfold pickOrConcat at h
+  cases xs with
+  | nil => exact hc h
+  | cons a t =>
+    cases t with
+    | nil =>
+      simp only at h
+      obtain ⟨e1, e2⟩ := pure_ok h
+      cases e1
+      exact ⟨wfNodes_nil _, by simpa [topDefs] using hx _ List.mem_cons_self⟩
+    | cons b t' => exact hc h
+
+theorem convSubscript_scope {vis : List Name} {var : Name} {tgt : Option Name} {idx : List Idx} {x : Name}
+    {ns : List Node} {s s' : St} (hv : var ∈ vis) (h : convSubscript var tgt idx s = .ok ((x, ns), s')) :
+    ExprOK vis x ns := by
+  unfold convSubscript at h
+  mbind h with target s0 h0
+  try dsimp only at h
+  by_cases hc : (!(slicedOf 0 idx).isEmpty || decide ((scalarsOf 0 idx).length > 1)) = true
+  · rw [if_pos hc] at h
+    mbind h with p s1 h1
+    obtain ⟨⟨starts, ends, axes, steps⟩, ns1, cc⟩ := p
+    try dsimp only at h
+    mbind h with p s2 h2
+    obtain ⟨sv, n1⟩ := p
+    try dsimp only at h
+    mbind h with p s3 h3
+    obtain ⟨ev, n2⟩ := p
+    try dsimp only at h
+    mbind h with p s4 h4
+    obtain ⟨av, n3⟩ := p
+    try dsimp only at h
+    mbind h with p s5 h5
+    obtain ⟨tv, n4⟩ := p
+    try dsimp only at h
+    have a1 := convSlices_scope _ (vis := vis) (c := []) (fun n hn => by simp [cacheNames] at hn) h1
+    have b1 := pickOrConcat_scope (vis := topDefs ns1 ++ vis) (fun y hy => a1.2 y (by simp [hy])) h2
+    have b2 := pickOrConcat_scope (vis := topDefs n1 ++ (topDefs ns1 ++ vis))
+      (fun y hy => vis_grow _ _ (a1.2 y (by simp [hy]))) h3
+    have b3 := pickOrConcat_scope (vis := topDefs n2 ++ (topDefs n1 ++ (topDefs ns1 ++ vis)))
+      (fun y hy => vis_grow _ _ (vis_grow _ _ (a1.2 y (by simp [hy])))) h4
+    have b4 := pickOrConcat_scope (vis := topDefs n3 ++ (topDefs n2 ++ (topDefs n1 ++ (topDefs ns1 ++ vis))))
+      (fun y hy => vis_grow _ _ (vis_grow _ _ (vis_grow _ _ (a1.2 y (by simp [hy]))))) h5
+    have hb1 := b1.2
+    have hb2 := b2.2
+    have hb3 := b3.2
+    have hb4 := b4.2
+    have hins : ∀ i, i ∈ [some var, some sv, some ev, some av, some tv] → ∀ n, i = some n →
+        n ∈ topDefs n4 ++ (topDefs n3 ++ (topDefs n2 ++ (topDefs n1 ++ (topDefs ns1 ++ vis)))) := by
+      intro i hi n hn
+      subst hn
+      simp only [List.mem_cons, Option.some.injEq, List.mem_nil_iff, or_false] at hi
+      rcases hi with rfl | rfl | rfl | rfl | rfl
+      · memtac
+      · memtac
+      · memtac
+      · memtac
+      · memtac
+    by_cases hsc : (scalarsOf 0 idx).isEmpty = true
+    · rw [if_pos hsc] at h
+      obtain ⟨e1, e2⟩ := pure_ok h
+      cases e1
+      refine ⟨wf_app a1.1 (wf_app b1.1 (wf_app b2.1 (wf_app b3.1 (wf_app b4.1 (wf_single_op hins))))), ?_⟩
+      simp [topDefs_append, topDefs, Node.outs]
+    · rw [if_neg hsc] at h
+      mbind h with sliced s6 h6
+      mbind h with p s7 h7
+      obtain ⟨sq, n5⟩ := p
+      try dsimp only at h
+      obtain ⟨e1, e2⟩ := pure_ok h
+      cases e1
+      have c5 := emitConst_scope (topDefs [Node.op "" "Slice" [some var, some sv, some ev, some av, some tv] [sliced] []]
+        ++ (topDefs n4 ++ (topDefs n3 ++ (topDefs n2 ++ (topDefs n1 ++ (topDefs ns1 ++ vis)))))) h7
+      have hc5 := c5.2
+      have hlast : wfNodes (topDefs [Node.op "" "Slice" [some var, some sv, some ev, some av, some tv] [sliced] []]
+          ++ (topDefs n4 ++ (topDefs n3 ++ (topDefs n2 ++ (topDefs n1 ++ (topDefs ns1 ++ vis))))))
+          (n5 ++ [Node.op "" "Squeeze" [some sliced, some sq] [x] []]) = true := by
+        refine wf_app c5.1 (wf_single_op ?_)
+        intro i hi n hn
+        subst hn
+        simp only [List.mem_cons, Option.some.injEq, List.mem_nil_iff, or_false] at hi
+        rcases hi with rfl | rfl
+        · simp [topDefs, Node.outs]
+        · exact hc5
+      refine ⟨wf_app a1.1 (wf_app b1.1 (wf_app b2.1 (wf_app b3.1 (wf_app b4.1
+        (wf_app (a := [Node.op "" "Slice" [some var, some sv, some ev, some av, some tv] [sliced] []])
+          (wf_single_op hins) hlast))))), ?_⟩
+      simp [topDefs_append, topDefs, Node.outs]
+  · rw [if_neg hc] at h
+    cases hsc : scalarsOf 0 idx with
+    | nil =>
+      simp only [hsc] at h
+      obtain ⟨e1, e2⟩ := pure_ok h
+      cases e1
+      refine ⟨wf_single_op ?_, by simp [topDefs, Node.outs]⟩
+      intro i hi n hn
+      subst hn
+      simp only [List.mem_cons, Option.some.injEq, List.mem_nil_iff, or_false] at hi
+      subst hi
+      exact hv
+    | cons p rest =>
+      obtain ⟨ax, k⟩ := p
+      simp only [hsc] at h
+      mbind h with q s1 h1
+      obtain ⟨iv, n1⟩ := q
+      try dsimp only at h
+      obtain ⟨e1, e2⟩ := pure_ok h
+      cases e1
+      have c1 := emitConst_scope vis h1
+      refine ⟨wf_app c1.1 (wf_single_op ?_), by simp [topDefs_append, topDefs, Node.outs]⟩
+      intro i hi n hn
+      subst hn
+      simp only [List.mem_cons, Option.some.injEq, List.mem_nil_iff, or_false] at hi
+      rcases hi with rfl | rfl
+      · exact vis_grow _ _ hv
+      · exact c1.2
+
 mutual
 theorem convExpr_scope (L : Locals) : ∀ (e : Expr) (tgt : Option Name) {vis : List Name} {x : Name}
     {ns : List Node} {s s' : St}, VisOK vis L →
@@ -599,6 +873,19 @@ theorem convExpr_scope (L : Locals) : ∀ (e : Expr) (tgt : Option Name) {vis : 
         refine ⟨wf_app a1.1 (wf_app a2.1 (wf_app a3.1 (wf_single_op (ins_some_vis a3.2)))), ?_⟩
         rw [← List.append_assoc, ← List.append_assoc]
         exact last_out_mem _ _ _ _ _ _
+  | .subscript base idx, tgt, vis, x, ns, s, s', hL, h => by
+    unfold convExpr at h
+    mbind h with p s1 h1
+    obtain ⟨v, ns1⟩ := p
+    try dsimp only at h
+    mbind h with p s2 h2
+    obtain ⟨r, ns2⟩ := p
+    try dsimp only at h
+    obtain ⟨e1, e2⟩ := pure_ok h
+    cases e1
+    have a1 := convExpr_scope L base none hL h1
+    have a2 := convSubscript_scope (vis := topDefs ns1 ++ vis) a1.2 h2
+    exact ⟨wf_app a1.1 a2.1, mem_after_app a2.2⟩
   | .other us, tgt, vis, x, ns, s, s', hL, h => by
     unfold convExpr at h
     exact (failM_ok h).elim
@@ -1135,9 +1422,9 @@ theorem genUniques_length : ∀ (cs : List Name) {rs : List Name} {s s' : St},
     genUniques cs s = .ok (rs, s') → rs.length = cs.length :=
   fun cs _ _ _ h => (genUniques_fresh cs h).2.2
 
-theorem loopEnter_scope {L : Locals} {v : Name} {state : List Name} {L1 : Locals} {iv : Name}
+theorem loopEnter_scope {L : Locals} {v : Name} {bindIt : Bool} {state : List Name} {L1 : Locals} {iv : Name}
     {ps : List Name} {s s' : St} {vis : List Name}
-    (h : loopEnter L v state s = .ok ((L1, iv, ps), s')) (hL : VisOK vis L)
+    (h : loopEnter L v bindIt state s = .ok ((L1, iv, ps), s')) (hL : VisOK vis L)
     (hiv : iv ∈ vis) (hps : ∀ p, p ∈ ps → p ∈ vis) : VisOK vis L1 ∧ ps.length = state.length := by
   unfold loopEnter at h
   mbind h with iv' s1 h1
@@ -1146,7 +1433,66 @@ theorem loopEnter_scope {L : Locals} {v : Name} {state : List Name} {L1 : Locals
   try dsimp only at h
   obtain ⟨e1, e2⟩ := pure_ok h
   cases e1
-  exact loopParams_scope _ _ h2 (hL.push.bindVar hiv) hps
+  refine loopParams_scope _ _ h2 ?_ hps
+  unfold loopScope
+  cases bindIt with
+  | true => simpa using hL.push.bindVar hiv
+  | false => simpa using hL.push
+
+theorem condNodes_scope {whileVar brkCond : Option Name} {oc co : Name} {cns : List Node} {s s' : St}
+    {V : List Name} (hoc : oc ∈ V) (hbrk : ∀ b, brkCond = some b → b ∈ V)
+    (h : condNodes whileVar brkCond oc s = .ok ((co, cns), s')) :
+    wfNodes V cns = true ∧ co ∈ topDefs cns ∧ (∀ x, x ∈ topDefs cns → x ∈ s'.used) ∧ Mono s s' := by
+  have hf := condNodes_fresh h
+  have hused : ∀ x, x ∈ topDefs cns → x ∈ s'.used :=
+    fun x hx => after_in_used hf (List.mem_append.mpr (Or.inl hx))
+  have hone : ∀ {s s' : St} {co : Name} {cns : List Node},
+      (do let co ← genUnique "cond_out"
+          pure (co, [condNode brkCond oc co]) : M (Name × List Node)) s = .ok ((co, cns), s') →
+      wfNodes V cns = true ∧ co ∈ topDefs cns := by
+    intro s s' co cns h
+    mbind h with c s1 h1
+    obtain ⟨e1, e2⟩ := pure_ok h
+    cases e1
+    cases hb : brkCond with
+    | none =>
+      refine ⟨?_, by simp [condNode, topDefs, Node.outs]⟩
+      simp only [condNode]
+      apply wf_single_op
+      intro i hi n hn
+      simp only [List.mem_singleton] at hi
+      subst hi; cases hn; exact hoc
+    | some b =>
+      refine ⟨?_, by simp [condNode, topDefs, Node.outs]⟩
+      simp only [condNode]
+      apply wf_single_op
+      intro i hi n hn
+      simp only [List.mem_singleton] at hi
+      subst hi; cases hn; exact hbrk _ hb
+  unfold condNodes at h
+  cases whileVar with
+  | none => obtain ⟨a, b⟩ := hone h; exact ⟨a, b, hused, hf.1⟩
+  | some w =>
+    cases hb : brkCond with
+    | none => subst hb; obtain ⟨a, b⟩ := hone h; exact ⟨a, b, hused, hf.1⟩
+    | some b =>
+      subst hb
+      simp only at h
+      mbind h with nb s1 h1
+      mbind h with c s2 h2
+      obtain ⟨e1, e2⟩ := pure_ok h
+      cases e1
+      refine ⟨?_, by simp [topDefs, Node.outs], hused, hf.1⟩
+      refine wf_app (a := [Node.op "" "Not" [some b] [nb] []]) (wf_single_op ?_) (wf_single_op ?_)
+      · intro i hi n hn
+        simp only [List.mem_singleton] at hi
+        subst hi; cases hn; exact hbrk _ rfl
+      · intro i hi n hn
+        subst hn
+        simp only [List.mem_cons, Option.some.injEq, List.mem_nil_iff, or_false] at hi
+        rcases hi with rfl | rfl
+        · exact vis_grow _ _ hoc
+        · simp [topDefs, Node.outs]
 
 theorem loopFinish_scope {L L2 : Locals} {state : List Name} {bound cond : Option Name}
     {condIn iv : Name} {ps : List Name} {whileVar : Option Name} {bn : List Node}
@@ -1165,7 +1511,9 @@ theorem loopFinish_scope {L L2 : Locals} {state : List Name} {bound cond : Optio
   | none => simp only [hcn] at h; exact (failM_ok h).elim
   | some oc =>
     simp only [hcn] at h
-    mbind h with condOut s1 h1
+    mbind h with p s1 h1
+    obtain ⟨condOut, cns⟩ := p
+    try dsimp only at h
     mbind h with p s2 h2
     obtain ⟨os, ns3⟩ := p
     try dsimp only at h
@@ -1194,25 +1542,9 @@ theorem loopFinish_scope {L L2 : Locals} {state : List Name} {bound cond : Optio
             cases hcn
             exact hL2.current hf
           | attr p ty => simp only [hf] at hcn; cases hcn
-    generalize hcnode : condNode brkCond oc condOut = cnode at h2 ⊢
-    have hcn_outs : cnode.outs = [condOut] := by
-      cases brkCond <;> (simp only [condNode] at hcnode; subst hcnode; rfl)
-    have hcn_wf : wfNodes (topDefs bn ++ ((iv :: condIn :: ps) ++ vis)) [cnode] = true := by
-      cases brkCond with
-      | none =>
-        simp only [condNode] at hcnode; subst hcnode
-        apply wf_single_op
-        intro i hi n hn
-        simp only [List.mem_singleton] at hi
-        subst hi; cases hn; exact hoc
-      | some b =>
-        simp only [condNode] at hcnode; subst hcnode
-        apply wf_single_op
-        intro i hi n hn
-        simp only [List.mem_singleton] at hi
-        subst hi; cases hn; exact hbrk _ rfl
+    obtain ⟨hcn_wf, hco_mem, hcn_used, m1⟩ := condNodes_scope hoc hbrk h1
     -- state outputs
-    have hL2' : VisOK (topDefs (bn ++ [cnode]) ++ ((iv :: condIn :: ps) ++ vis)) L2 := by
+    have hL2' : VisOK (topDefs (bn ++ cns) ++ ((iv :: condIn :: ps) ++ vis)) L2 := by
       apply hL2.mono
       intro x hx
       rw [topDefs_append]
@@ -1220,31 +1552,25 @@ theorem loopFinish_scope {L L2 : Locals} {state : List Name} {bound cond : Optio
       rcases hx with hx | hx
       · exact Or.inl (Or.inl hx)
       · exact Or.inr hx
-    obtain ⟨hcfresh, hcused, _⟩ := genUnique_spec h1
-    have hvu1 : ∀ x, x ∈ topDefs (bn ++ [cnode]) ++ ((iv :: condIn :: ps) ++ vis) → x ∈ s1.used := by
+    have hvu1 : ∀ x, x ∈ topDefs (bn ++ cns) ++ ((iv :: condIn :: ps) ++ vis) → x ∈ s1.used := by
       intro x hx
       rw [topDefs_append] at hx
       simp only [List.mem_append] at hx
-      rw [hcused]
       rcases hx with (hx | hx) | hx
-      · exact List.mem_cons_of_mem _ (hvu x (List.mem_append.mpr (Or.inl hx)))
-      · simp only [topDefs, List.flatMap_cons, List.flatMap_nil, List.append_nil, hcn_outs,
-          List.mem_singleton] at hx
-        subst hx; exact List.mem_cons_self
-      · exact List.mem_cons_of_mem _ (hvu x (List.mem_append.mpr (Or.inr (List.mem_append.mpr hx))))
-    obtain ⟨w3, m3, l3, n3, _⟩ := loopOutputs_scope L2 ((iv :: condIn :: ps) ++ vis) state (bn ++ [cnode])
+      · exact m1 x (hvu x (List.mem_append.mpr (Or.inl hx)))
+      · exact hcn_used x hx
+      · exact m1 x (hvu x (List.mem_append.mpr (Or.inr (List.mem_append.mpr hx))))
+    obtain ⟨w3, m3, l3, n3, _⟩ := loopOutputs_scope L2 ((iv :: condIn :: ps) ++ vis) state (bn ++ cns)
       [condOut] hL2' hvu1 (by
         intro x hx
         simp only [List.mem_singleton] at hx
-        subst hx; rw [hcused]; exact List.mem_cons_self) (by simp) h2
+        subst hx; exact hcn_used _ hco_mem) (by simp) h2
     obtain ⟨a4, l4⟩ := loopInits_scope L state hL h3
     have l5 := genUniques_length _ h4
     -- the body as a whole
-    have hbody : wfNodes ((iv :: condIn :: ps) ++ (topDefs ns4 ++ vis)) (bn ++ (cnode :: ns3)) = true := by
-      have hb1 : wfNodes ((iv :: condIn :: ps) ++ vis) (bn ++ ([cnode] ++ ns3)) = true :=
-        wf_app hbn (wf_app hcn_wf (by
-          have := wf_reassoc w3
-          simpa [topDefs, List.append_assoc] using this))
+    have hbody : wfNodes ((iv :: condIn :: ps) ++ (topDefs ns4 ++ vis)) (bn ++ (cns ++ ns3)) = true := by
+      have hb1 : wfNodes ((iv :: condIn :: ps) ++ vis) (bn ++ (cns ++ ns3)) = true :=
+        wf_app hbn (wf_app hcn_wf (wf_reassoc w3))
       apply wfNodes_mono _ _ hb1
       intro x hx
       simp only [List.mem_append] at hx ⊢
@@ -1259,7 +1585,8 @@ theorem loopFinish_scope {L L2 : Locals} {state : List Name} {bound cond : Optio
       · apply (allIn_iff' _ _).mpr
         intro o ho
         rcases List.mem_cons.mp ho with rfl | ho
-        · simp [topDefs_append, topDefs_cons, hcn_outs]
+        · simp only [topDefs_append, List.mem_append]
+          exact Or.inr (Or.inl hco_mem)
         · have := m3 o ho
           simpa [List.append_assoc] using this
       · simp [hps, l4]
@@ -1394,6 +1721,7 @@ theorem convStmt_scope (L : Locals) : ∀ (st : Stmt) (lo : VSet) {vis : List Na
         obtain ⟨ob, ns0⟩ := p
         try dsimp only at h
         mbind h with condIn s2 h2
+        have h2 := (forCondIn_ok h2).2
         mbind h with p s3 h3
         obtain ⟨L1, iv, ps⟩ := p
         try dsimp only at h
@@ -1440,6 +1768,7 @@ theorem convStmt_scope (L : Locals) : ∀ (st : Stmt) (lo : VSet) {vis : List Na
         simp only [hs] at h
         mbind h with condIn s2 h2
         mbind h with p s1 h1
+        have h1 := whileCond_ok h1
         obtain ⟨oc, ns0⟩ := p
         try dsimp only at h
         mbind h with p s3 h3
@@ -1663,6 +1992,7 @@ theorem convTop_scope {inputs : List Name} {rc : Option Nat} :
     · obtain ⟨es, b, rfl⟩ := hb
       unfold convTop at h
       mbind h with p s1 h1
+      have h1 := (onlyLast_ok h1).2
       obtain ⟨outs1, ns1⟩ := p
       try dsimp only at h
       mbind h with p s2 h2
@@ -1858,6 +2188,7 @@ theorem convTop_nodup {inputs : List Name} {rc : Option Nat} :
     · obtain ⟨es, b, rfl⟩ := hb
       unfold convTop at h
       mbind h with p s1 h1
+      have h1 := (onlyLast_ok h1).2
       obtain ⟨outs1, ns1⟩ := p
       try dsimp only at h
       mbind h with p s2 h2
@@ -2031,6 +2362,7 @@ theorem convTop_not_input {inputs : List Name} {rc : Option Nat} :
     · obtain ⟨es, b', rfl⟩ := hr
       unfold convTop at h
       mbind h with p s1 h1
+      have h1 := (onlyLast_ok h1).2
       obtain ⟨outs1, ns1⟩ := p
       try dsimp only at h
       mbind h with p s2 h2
